@@ -38,8 +38,7 @@
 (***************************************************************************)
 EXTENDS Integers, Sequences, FiniteSets, TLC
 
-VARIABLES first,   \* TRUE in the reset state only
-          exp,     \* per register: values its software-visible content may have in this cycle
+VARIABLES exp,     \* per register: values its software-visible content may have in this cycle
                    \*   [why: clause in charge, alts: set of patterns <<value, words left free>>]
           stg,     \* per register: abstract back-buffer of atomic writes (per word, -1 = never written)
           rd,      \* <<data due on the master's dat_r in this cycle>> or <<>>
@@ -49,7 +48,7 @@ VARIABLES first,   \* TRUE in the reset state only
                    \*   (a set: every way of attributing the strobes seen so far to accesses)
           obs      \* verdict bits
 
-cvars == <<first, exp, stg, rd, bsel, owe, obs>>
+cvars == <<exp, stg, rd, bsel, owe, obs>>
 
 MaxW == 4          \* words per register (sizes up to 4 bus words)
 
@@ -93,36 +92,31 @@ DTgt(c, a) == LET b == BankAt(c, a)
               IN IF b = 0 \/ c.built = 0 THEN <<0, 0>>
                  ELSE IF lo >= Len(c.map[b]) THEN <<0, 0>> ELSE c.map[b][lo + 1]
 
-(* documented placement (csr.py:_sort_gathered_items, GenericBank):        *)
-(* registers of a bank keep their creation order, a register with a fixed  *)
-(* location n sits at position n of the list, the others fill the free     *)
-(* positions in order, unused positions become reserved one-word CSRs;     *)
-(* two registers fixed to the same location are refused.  Word addresses   *)
-(* are then handed out consecutively.                                      *)
+(* Address map of a bank (csr.py: AutoCSR, _sort_gathered_items, GenericBank).  What software relies  *)
+(* on: the bank's list consists of its registers and reserved one-word fillers; every register owns *)
+(* exactly its DNW words, at consecutive addresses, in position order; a register with a fixed      *)
+(* location n is the n-th entry (from 0) of the list; the same declaration always yields the same   *)
+(* map.  The order of the automatically placed registers is left open.  A construction may be       *)
+(* refused only because of fixed locations (two registers at one location, or a location beyond     *)
+(* the number of registers).                                                                        *)
 BRegs(c, b) == { r \in 1..NR(c) : c.regs[r].bank = b }
-FixedAt(c, b, n) == { r \in BRegs(c, b) : c.regs[r].n = n }
-VarRegs(c, b) == { r \in BRegs(c, b) : c.regs[r].n = -1 }
-LocLen(c, b) == LET F == { c.regs[r].n + 1 : r \in BRegs(c, b) \ VarRegs(c, b) } IN
-                Max(Cardinality(BRegs(c, b)), IF F = {} THEN 0 ELSE CHOOSE x \in F : \A y \in F : y <= x)
-Conflict(c, b) == \E n \in 0..LocLen(c, b) : Cardinality(FixedAt(c, b, n)) > 1
-SlotReg(c, b, n) ==      \* register at list position n (from 0), 0 = reserved
-  IF FixedAt(c, b, n) # {} THEN CHOOSE r \in FixedAt(c, b, n) : TRUE
-  ELSE LET rank == Cardinality({ m \in 0..n : FixedAt(c, b, m) = {} })
-           V == VarRegs(c, b)
-           S == { r \in V : Cardinality({ q \in V : q <= r }) = rank }
-       IN IF S = {} THEN 0 ELSE CHOOSE r \in S : TRUE
-RECURSIVE LayoutUpTo(_, _, _)
-LayoutUpTo(c, b, n) ==   \* word list of list positions 0..n-1
-  IF n = 0 THEN <<>>
-  ELSE LET r == SlotReg(c, b, n - 1) IN
-       LayoutUpTo(c, b, n - 1) \o
-       (IF r = 0 THEN << <<0, 0>> >> ELSE [k \in 1..DNW(c, r) |-> <<r, k - 1>>])
-Layout(c, b) == LayoutUpTo(c, b, LocLen(c, b))
-RejectAllowed(c) ==      \* a refused construction must be due to a fixed location
+Conflict(c, b) == \E r1, r2 \in BRegs(c, b) : r1 # r2 /\ c.regs[r1].n # -1 /\ c.regs[r1].n = c.regs[r2].n
+WellFormed(c, b, m) ==
+  /\ \A a \in 1..Len(m) : \/ m[a] = <<0, 0>>
+                          \/ m[a][1] \in BRegs(c, b) /\ m[a][2] \in 0..(DNW(c, m[a][1]) - 1)
+  /\ \A r \in BRegs(c, b) :
+       /\ Cardinality({ a \in 1..Len(m) : m[a][1] = r }) = DNW(c, r)
+       /\ \E a \in 1..Len(m) :
+            /\ a + DNW(c, r) - 1 <= Len(m)
+            /\ \A k \in 0..(DNW(c, r) - 1) : m[a + k] = <<r, k>>
+            /\ c.regs[r].n # -1 =>                                   \* list entries before it = its location
+                 Cardinality({ a2 \in 1..(a - 1) : m[a2][2] = 0 }) = c.regs[r].n
+RejectAllowed(c) ==
   \E b \in 1..NB(c) : \/ Conflict(c, b)
                       \/ \E r \in BRegs(c, b) : c.regs[r].n >= Cardinality(BRegs(c, b))
 LayoutOK(c) == IF c.built = 1
-               THEN \A b \in 1..NB(c) : ~Conflict(c, b) /\ c.map[b] = Layout(c, b)
+               THEN /\ \A b \in 1..NB(c) : ~Conflict(c, b) /\ WellFormed(c, b, c.map[b])
+                    /\ c.map2 = c.map                                \* a second construction gives the same map
                ELSE RejectAllowed(c)
 
 ---------------------------------------------------------------------------
@@ -148,7 +142,7 @@ DInputs(c) == { b \o Z(c) : b \in BusOps(c) } \cup
    every DUT / trace in a constant, so that a step only looks values up).  From here on `c` is an
    extended configuration. *)
 Ext(c) == [w |-> c.w, little |-> c.little, pb |-> c.pb, npages |-> c.npages, bankadr |-> c.bankadr,
-           regs |-> c.regs, map |-> c.map, built |-> c.built, free |-> c.free, dats |-> c.dats, hdat |-> c.hdat,
+           regs |-> c.regs, map |-> c.map, map2 |-> c.map2, built |-> c.built, free |-> c.free, dats |-> c.dats, hdat |-> c.hdat,
            nr     |-> NR(c),
            ob     |-> 1 + NB(c),                                     \* outputs before the first register
            kind   |-> [r \in 1..NR(c) |-> c.regs[r].kind],
@@ -188,7 +182,6 @@ AllOk == [okwrite |-> TRUE, okatomic |-> TRUE, okread |-> TRUE, okstrobe |-> TRU
 NoOwe == <<{0}, {0}, 0>>
 
 CInit(c) ==
-  /\ first = TRUE
   /\ exp = [r \in 1..c.nr |->
               IF c.wrt[r]
               THEN [why |-> "R", alts |-> {<<IF c.kind[r] = "status_rw" THEN 0 ELSE RReset(c, r), {}>>}]
@@ -293,7 +286,6 @@ CStep(c, iv, o) ==
           \A j \in 1..Len(fs(r)) : fs(r)[j].pulse = 1 =>
             Slice(FF(r), c.fpos[r][j], 1) = (IF RE(r) = 1 THEN Slice(V(r), c.foff[r][j], 1) ELSE 0)
   IN
-  /\ first' = FALSE
   /\ exp' = [r \in 1..N |-> expn(r)]
   /\ stg' = IF tr # 0 /\ op = 1 /\ c.atom[tr] /\ ~last THEN [stg EXCEPT ![tr][wi + 1] = wdat] ELSE stg
   /\ rd' = IF op = 2 /\ tr # 0 THEN <<rdval>> ELSE <<>>
@@ -337,7 +329,7 @@ PulseFieldsOneCycle == obs.okpulse
 ResetValues         == obs.okreset
 (* write_from_dev: the device's we/dat_w replaces the value *)
 DeviceWrite         == obs.okdev
-(* the address map is the documented one: consecutive, disjoint, fixed locations honoured,
-   conflicts refused *)
+(* the address map is well formed: every register owns its words once, consecutively; fixed
+   locations honoured, conflicts refused; reproducible *)
 AddressesDisjoint   == obs.oklayout
 =============================================================================
